@@ -235,6 +235,7 @@ def splitLoop (target : List Nat) (limit : Option Nat) : List Caps → Nat → N
 def builtinStringSplit (E : Eng) (rx : RX) (target : List Nat) (limit : Option Nat) : RX × Res :=
   if limit = some 0 then (rx, .arr none []) else
   let result := findAll E target none
+  if target.isEmpty ∧ !result.isEmpty then (rx, .arr none []) else      -- 15.5.4.14 step 11
   let (vals, lastIndex, found, hit) := splitLoop target limit result 0 0 []
   if hit then (rx, .arr none vals)
   else if some found ≠ limit then
@@ -269,5 +270,32 @@ def parseFlags : List Nat → Bool → Bool → Bool → Option (Bool × Bool ×
     else if c = 109 then (if mm then none else parseFlags cs g i true)
     else if c = 105 then (if i then none else parseFlags cs g true mm)
     else none
+
+/-- type_regexp.go regExpSource: the `source` property – the empty pattern is `(?:)`, a `/` outside a
+    class gets a backslash -/
+def regExpSourceLoop : List Nat → Bool → Bool → List Nat
+  | [], _, _ => []
+  | c :: cs, escaped, inClass =>
+    if escaped then c :: regExpSourceLoop cs false inClass
+    else if c = 92 then c :: regExpSourceLoop cs true inClass
+    else if c = 91 then c :: regExpSourceLoop cs false true
+    else if c = 93 then c :: regExpSourceLoop cs false false
+    else if c = 47 ∧ !inClass then 92 :: c :: regExpSourceLoop cs false inClass
+    else c :: regExpSourceLoop cs false inClass
+
+def regExpSource (pattern : List Nat) : List Nat :=
+  if pattern.isEmpty then [40, 63, 58, 41] else regExpSourceLoop pattern false false
+
+/-- type_regexp.go:73 `flags: flags` – what regExpObject keeps for global.go:131 newRegExp(R):
+    the flags string the object was built with -/
+def storedFlags (flags : List Nat) : List Nat := flags
+
+/-- global.go:131 newRegExp / builtin_regexp.go:9 builtinRegExp with a RegExp object R as pattern.
+    `withNew = false` is the call RegExp(R).  Result: none = TypeError (flags supplied);
+    some (same, pattern, flags) = the object itself, or a new object built from (pattern, flags). -/
+def fromRegExp (pat flags : List Nat) (withNew : Bool) (flagsGiven : Bool) : Option (Bool × List Nat × List Nat) :=
+  if !withNew ∧ !flagsGiven then some (true, pat, flags)
+  else if flagsGiven then none
+  else some (false, pat, storedFlags flags)
 
 end OttoVerif.C10.Model
